@@ -125,6 +125,13 @@ Example C04_mt_chunking_example :
   prefix_of [[1; 2]; [3; 4]; [5]] 2 = [3; 4] /\ pieces 9 4 = [4; 4; 1] /\ pieces 8 4 = [4; 4] /\ pieces 0 4 = [].
 Proof. vm_compute. repeat split. Qed.
 
+(* the layout functions compared with the real outputs (correspondence c) compute the sizes of the very
+   chunks the pipeline theorems quantify over *)
+Theorem C04_layout_link :
+  forall (sz : Z) (l : list Z), 1 <= sz -> map lenZ (chunks_of sz l) = pieces (lenZ l) sz.
+Proof. exact layout_link. Qed.
+Print Assumptions C04_layout_link.
+
 (* ---- the pipelines produce streams the frame specification decodes to the input ---- *)
 Theorem C04_st_roundtrip :
   forall (bdec : list byte -> list byte -> option (list byte)) (skipcrc : bool)
